@@ -20,7 +20,7 @@ import (
 var rec = vev.For("C15")
 
 func TestMain(m *testing.M) {
-	rec.SetRule("well-formed documents: a wrapper of 0-2 levels (own default and prefixed bindings) around target elements generated lexically (depth <= 5, fan-out mostly <= 4, occasionally up to 16; default and prefixed namespaces, redeclaration, undeclaration xmlns='', prefixed/unprefixed attributes, xml:lang, mixed content, CDATA, entities and numeric references incl. &#xD;, comments, PIs). O1 capture with xml.Unmarshal into RawXMLValue, xml.Marshal, re-read with encoding/xml and compare namespace-expanded trees with the harness' strict reading of the target in its original context; O2 same through TokenReader->EncodeToken; O3 token stream finite, balanced, then io.EOF forever; O4 typed Decode via Prop.Get(..).Decode equals direct decoding. non-trivial = the target uses a binding made outside itself, or redeclares/undeclares one, or has a prefixed attribute; distinct by document")
+	rec.SetRule("well-formed documents: a wrapper of 0-2 levels (own default and prefixed bindings) around target elements generated lexically (depth <= 5 and, in a tenth of the documents, chains of depth 9-41; fan-out mostly <= 4, occasionally up to 16; default and prefixed namespaces, redeclaration, undeclaration xmlns='', prefixed/unprefixed attributes, xml:lang, mixed content, CDATA, entities and numeric references incl. &#xD;, comments, PIs). O1 capture with xml.Unmarshal into RawXMLValue, xml.Marshal, re-read with encoding/xml and compare namespace-expanded trees with the harness' strict reading of the target in its original context; O2 same through TokenReader->EncodeToken; O3 token stream finite, balanced, then io.EOF forever; O4 typed Decode via Prop.Get(..).Decode equals direct decoding. non-trivial = the target uses a binding made outside itself, or redeclares/undeclares one, or has a prefixed attribute; distinct by document")
 	rec.Assume("in the typed-decoding part, prefix names never coincide with an attribute local name of the decoded struct (encoding/xml matches unqualified attr fields by local name only, namespace declarations included - a stdlib quirk that direct decoding has and a raw value need not reproduce)", "re-reading is done with encoding/xml and namespace declarations are ignored in the comparison, as the statement's observation point says", "namespace names that coincide with an in-scope prefix are generated as a labelled minority")
 	vev.Main(m)
 }
@@ -169,10 +169,14 @@ func (g *gen) element(b *strings.Builder, scope map[string]string, depth int, fo
 		b.WriteString(" " + a)
 	}
 	nk := 0
+	chain := depth > 5 // deep mode: one child carries the chain on, its siblings stay leaves
 	if depth > 0 {
 		nk = g.pick("nkids", 5)
 		if g.pick("wide", 12) == 0 {
 			nk = 5 + g.pick("nkids-wide", 12)
+		}
+		if chain {
+			nk = 1 + g.pick("nkids-chain", 3)
 		}
 	}
 	if nk == 0 && g.pick("selfclose", 2) == 0 {
@@ -180,8 +184,13 @@ func (g *gen) element(b *strings.Builder, scope map[string]string, depth int, fo
 		return
 	}
 	b.WriteString(">")
+	carried := false
 	for i := 0; i < nk; i++ {
-		switch g.pick("kidkind", 8) {
+		kind := g.pick("kidkind", 8)
+		if chain && !carried && (i == nk-1 || kind < 4 && g.pick("carrynow", 2) == 0) {
+			kind = 4
+		}
+		switch kind {
 		case 0, 1:
 			b.WriteString(g.text())
 		case 2:
@@ -189,7 +198,12 @@ func (g *gen) element(b *strings.Builder, scope map[string]string, depth int, fo
 		case 3:
 			b.WriteString("<?" + []string{"pi data", "php echo 1;", "t"}[g.pick("pi", 3)] + "?>")
 		default:
-			g.element(b, inner, depth-1, "")
+			d := depth - 1
+			if chain && carried {
+				d = 0
+			}
+			carried = true
+			g.element(b, inner, d, "")
 		}
 	}
 	b.WriteString("</" + name + ">")
@@ -267,7 +281,12 @@ func genDoc(rt *rapid.T, bare bool) (Case, map[string]bool) {
 		nt = g.pick("ntargets", 3) + 1
 	}
 	for i := 0; i < nt; i++ {
-		g.element(&b, scope, 4, "")
+		d := 4
+		if g.pick("deep", 10) == 0 {
+			d = []int{8, 9, 12, 17, 24, 33, 40}[g.pick("deepdepth", 7)]
+			g.features["deep"] = true
+		}
+		g.element(&b, scope, d, "")
 		if c.Depth > 0 && g.pick("between", 3) == 0 {
 			b.WriteString("\n ")
 		}
